@@ -101,9 +101,12 @@ def run(ctx):
                        "pyins.strapdown.Integrator.integrate")
     ctx.trust("spec/nav_ode.py, spec/wgs84.py, spec/frames.py", "sympy polys, mpmath.iv, z3",
               "scipy Rotation Euler contracts (glue only; cross-checked in C17)")
-    ctx.assume("Lax/Dahlquist: a one-step method that is consistent and locally Lipschitz converges; the global error has no component that does not vanish with the interval",
+    ctx.assume("Lax/Dahlquist, the parts not mechanised: first-order consistency gives a local truncation error h tau(h) with tau(h) -> 0 (Taylor's theorem); a C^1 step map is Lipschitz on the compact domain",
                "C15 postcondition theta = w*dt + O(dt^2), dv = f*dt + O(dt^2) (proved in C15)",
                "Taylor's theorem", "asymptotic error expansion (halving inequality) -- only exercised by the bounded stand-in")
+
+    from props import helpers as _helpers_cv
+    ctx.guard(_helpers_cv.lean_convergence, ctx, "C01")
 
     syms = [phi, lam, h] + list(V) + list(Cm) + list(W) + list(Fs)
     stubs = lambda order: dict(extra=[(py._numba_integrate, dict(mat_from_rotvec=rotvec_stub(order), gravity=gravity_stub))])
